@@ -5,6 +5,7 @@ use bita_verif_harness as h;
 
 mod chunking;
 mod format;
+mod helpers;
 mod planner;
 mod readers;
 
@@ -15,6 +16,11 @@ fn main() {
         std::process::exit(2);
     }
     let suite = args[1].as_str();
+    if suite == "lib-compress" {
+        let rt = tokio::runtime::Builder::new_multi_thread().worker_threads(4).enable_all().build().unwrap();
+        rt.block_on(helpers::lib_compress(&args[2..]));
+        return;
+    }
     let thorough = args[2] == "thorough";
     let seed = h::seed_from_env();
     h::silence_panics();
